@@ -1,0 +1,28 @@
+//go:build verif
+
+package font
+
+import "github.com/go-text/typesetting/font/opentype/tables"
+
+// Verification hook (property C12).
+//
+// VerifStripMetrics returns a new Face over a shallow copy of the font from which the tables behind
+// FontHExtents (hhea, and the OS/2 typo metrics switch), FontVExtents (vhea) and HasVerticalMetrics
+// (vmtx) are removed as requested: the corpus has no face without horizontal extents, and the
+// fallback branches of harfbuzz.Font depend on exactly these answers.  The receiver is not modified.
+func (f *Face) VerifStripMetrics(hhea, vhea, vmtx bool) *Face {
+	ft := *f.Font
+	if hhea {
+		ft.hhea = nil
+		ft.os2.useTypoMetrics = false
+	}
+	if vhea {
+		ft.vhea = nil
+	}
+	if vmtx {
+		ft.vmtx = tables.Vmtx{}
+	}
+	out := NewFace(&ft)
+	out.SetCoords(f.Coords())
+	return out
+}
